@@ -5,15 +5,15 @@ CLAIM = ("Proved in Coq for the model: for every brace target, level, specificat
          "exactly the registered writers named in the list - exactly once each (a repeated name is served once), never a writer that is not named - "
          "whatever the specification says, reports each unknown name once per occurrence and nothing else (C13_route, "
          "C13_served_exactly_once); the default channel is reached only through _Default and only if the specification enables the "
-         "record's module path (C13_default_channel); a FileLogWriter / well-behaved custom writer emits only within its ceiling "
+         "record's module path (C13_default_channel); no writer - custom, FileLogWriter or SyslogWriter - emits above its ceiling "
          "(C13_ceiling); stderr/stdout duplication happens exactly at or above the duplication level, also after adapt_duplication_to_* "
          "(C13_duplication, C13_adapt). Tied to the code by the correspondence check with recording writers, FileLogWriters with "
-         "max_level, captured stderr/stdout.")
+         "max_level, SyslogWriters with max_log_level connected to a unix datagram socket that the harness reads, captured stderr/stdout.")
 THEOREMS = ["C13_route", "C13_served_exactly_once", "C13_ceiling", "C13_default_channel", "C13_duplication", "C13_adapt"]
 TRUSTED = ["modelled, not verified: HashMap lookup by name, str::split, the LogWriter implementations' own max-level handling "
-           "(FileLogWriter::write checks it; the harness's recording writer checks it)"]
-ASSUMPTIONS = ["SyslogWriter is exercised by a separate case kind (see DESIGN.md); stdout/stderr are captured through redirected file descriptors"]
-RULE = ("one built logger per case: 0-3 additional writers (recording writers and FileLogWriters, ceilings 0-5), duplication levels "
+           "(FileLogWriter::write and - since fix 08aa8ee - SyslogWriter::write check it; the harness's recording writer checks it)"]
+ASSUMPTIONS = ["stdout/stderr are captured through redirected file descriptors; the syslog socket is a unix datagram socket in the scratch directory"]
+RULE = ("one built logger per case: 0-3 additional writers (recording writers, FileLogWriters and SyslogWriters, ceilings 0-5), duplication levels "
         "0-6 for stderr and stdout, optional line filter; 3-10 records, 60 % with brace targets over registered, unknown, duplicated "
         "and empty names and _Default in any order, 10 % malformed brace shapes; adapt_duplication_to_* in between; non-trivial = a "
         "brace target with at least two names was logged and at least one writer was served; distinct = distinct case text")
